@@ -148,7 +148,19 @@ def main():
             if f["ret"] == 0 and nstress < (12 if a.count > 0 else 40):
                 out.write("STRESS st-%d-%d f%d 6 250 %d %d\nEND\n" % (a.seed, nstress, f["idx"], r.below(1 << 30), f["limit"] or 3))
                 nstress += 1
-    json.dump(dict(schedules=len(cases) + npar + nstress + ntri, enumeration=total + npar + nstress + ntri, overlapping_lookups=npar,
+    # first-call races (real parallelism): plain functions, every thread calls each fresh key three times
+    nrace = 0
+    with open(a.out, "a") as out:
+        for f in allf:
+            if f["fl"] == "t" or f["sig"] != 0 or f["gates"] or f["ret"] not in (0, 1):
+                continue
+            if f["limit"] is not None or f["ttl"] or f["mem"] or f["cache_if"] or f["inval_on"]:
+                continue
+            if nrace >= (6 if a.count > 0 else 24):
+                break
+            out.write("STRESS st-%d-r%d f%d 4 %d 0 0 race\nEND\n" % (a.seed, nrace, f["idx"], 400 if a.count > 0 else 3000))
+            nrace += 1
+    json.dump(dict(schedules=len(cases) + npar + nstress + ntri + nrace, first_call_races=nrace, enumeration=total + npar + nstress + ntri + nrace, overlapping_lookups=npar,
                    three_caller_schedules=ntri,
                    stress_runs=nstress, op_pairs=hist), sys.stdout)
 
